@@ -59,6 +59,9 @@ AttSpec == MCInit /\ [][AttNext]_<<vars_, tk>>
 Bound == Len(hist) < Depth
 View == <<state, Len(hist)>>
 EmitEnd == Len(hist') # Depth \/ PrintT("EMIT " \o ToJson([h |-> hist', chg |-> TRUE]))
+(* C04 generator: the abstract content of the file at the end of a walk (only states in which the file on disk is the model) *)
+EmitState == (Len(hist') # Depth \/ mode' = "def")
+             \/ PrintT("EMIT " \o ToJson([st |-> [fmt |-> fmt', numrecs |-> numrecs', dims |-> dims', gatts |-> gatts', vars |-> vars']]))
 OkOnly == "rc" \notin DOMAIN hist'[Len(hist')] \/ hist'[Len(hist')].rc = "NC_NOERR"
 ReachFilled == ~(\E i \in 1..Len(vars) : mode = "data" /\ ~vars[i].isnew /\ IsRecVar(vars[i]) /\ Len(vars[i].data) > 0 /\ vars[i].data[1][1] = F)
 =============================================================================
